@@ -184,7 +184,8 @@ func run(c *core.Ctx) {
 	c.Assume("example code imports goa.design/clue which is not available offline: a signature-compatible stub module stands in (environment, not goa code)")
 	c.Assume("gRPC designs need protoc: a stand-in protoc is used when present (see C10)")
 	c.Note("deep_families", spec.DeepShapesDoc+" | "+spec.DeepValidationDoc)
-	for _, f := range append(families.All(c.Thorough()), families.Deep(c.Thorough())...) {
+	c.Note("http_level_families", spec.HTTPValidationDoc+" | "+spec.StreamValidationDoc)
+	for _, f := range append(append(families.All(c.Thorough()), families.Deep(c.Thorough())...), families.HTTPLevel(c.Thorough())...) {
 		if only := os.Getenv("VERIF_FAMILY"); only != "" && !strings.HasPrefix(f.Name, only) {
 			c.Incomplete("restricted to family " + only + " by VERIF_FAMILY (development aid)")
 			continue
